@@ -75,11 +75,12 @@ ASSUMPTIONS = [
     "has begun are not covered",
 ]
 BOUNDS_DOC = {
-    "quick": "env: targets x roots x queries and headers x version x scheme x addresses x method x variant as two "
-             "sub-products; app: full product of shapes x statuses x header sets x chunkings; body: L in {0,4}; all on "
-             "4 direct seams; e2e reduced",
-    "thorough": "env: the full product of every request axis on all 4 direct seams; app/body as quick plus L in "
-                "{1,65536}; e2e full sub-alphabets",
+    "quick": "env: two sub-products (12 targets x 5 roots x 3 queries x 4 header sets x 2 scope variants x GET/POST; "
+             "3 target/root pairs x header sets x 3 versions x 2 schemes x 3 address kinds x 3 methods x 2 variants); "
+             "app: full product of 13 shapes x 3 statuses x 4 header sets x 6 chunkings (x 2 requests); body: L in "
+             "{0,4} x 5 sizes x up to 6 deliveries x 3 shapes; all on the 4 direct seams; e2e sub-alphabets on h1 and h2",
+    "thorough": "env: the full product of every request axis (77 760 requests) on each of the 4 direct seams; "
+                "app/body as quick plus L in {1,65536}; e2e as quick",
 }
 BUDGET = {"quick": 55, "thorough": 1100}
 
@@ -183,13 +184,14 @@ def direct_cases(tier: str, group: str, seam: str) -> List[tuple]:
                     for q in QUERIES:
                         for h in HDRSETS:
                             for var in VARIANTS:
-                                cases.append((seam, http_req("GET", p, q, r, h, variant=var), BASE_APP, 64, "s"))
-            for p, r in ((b"/app/caf%C3%A9", "/app"), (b"/a/b", "")):
+                                for m, n in (("GET", 0), ("POST", 5)):
+                                    cases.append((seam, http_req(m, p, q, r, h, body_n=n, variant=var), BASE_APP, 64, "s"))
+            for p, r in ((b"/app/caf%C3%A9", "/app"), (b"/a/b", ""), (b"/application", "/app")):
                 for h in HDRSETS:
                     for ver in VERSIONS:
                         for sch in SCHEMES:
                             for ad in ADDRS:
-                                for m in ("GET", "POST"):
+                                for m in METHODS:
                                     for var in VARIANTS:
                                         n = 5 if m == "POST" else 0
                                         cases.append((seam, http_req(m, p, b"x=1", r, h, ver, sch, ad, n, var),
@@ -222,7 +224,7 @@ def e2e_cases(tier: str, group: str, seam: str) -> List[tuple]:
     cases: List[tuple] = []
     h2 = seam == "e2e:h2"
     ver, sch = ("2", "https") if h2 else ("1.1", "http")
-    full = tier == "thorough"
+    full = True  # the end-to-end sub-alphabets are small: both tiers run all of them
     if group == "env":
         paths = PATHS if full else [b"/", b"/app", b"/app/caf%C3%A9", b"/application", b"/app/a%2Fb", b"/%61pp/x"]
         roots = ROOTS if full else ["", "/app", "/other"]
